@@ -54,6 +54,8 @@ pub struct Counters {
     pub models_judged: u64,
     pub layout_fits: u64,
     pub layout_observations: u64,
+    pub builder_sequences: u64,
+    pub stale_buffer_calls: u64,
     pub last_iters: (u64, u64),
     pub last_nsupport: u64,
 }
@@ -83,6 +85,8 @@ impl Counters {
         self.models_judged += o.models_judged;
         self.layout_fits += o.layout_fits;
         self.layout_observations += o.layout_observations;
+        self.builder_sequences += o.builder_sequences;
+        self.stale_buffer_calls += o.stale_buffer_calls;
     }
     pub fn as_pairs(&self) -> Vec<(&'static str, u64)> {
         vec![
@@ -90,6 +94,8 @@ impl Counters {
             ("models_judged", self.models_judged),
             ("layout_family_fits", self.layout_fits),
             ("layout_family_predict_observations_compared", self.layout_observations),
+            ("builder_family_sequences_compared_with_canonical", self.builder_sequences),
+            ("predict_inplace_stale_buffer_and_single_sample_calls", self.stale_buffer_calls),
             ("platt_calibration_errors_not_judged", self.platt_errors),
             ("calibrated_models_judged", self.calibrated_models),
             ("fits_shrinking_on", self.fits_shrinking_on),
